@@ -401,9 +401,9 @@ def run(ctx):
     ctx.cov['spec_behaviours_replayed'] = sum(1 for h in hs if h['src'] == 'model')
     # every fault datagram once, each followed by a normal message
     plain = dict(src=dict(h=0, p=0), rport=0, tmpl=[], os=False)
-    for i in range(0, len(fb), 8):
+    for i in range(0, len(fb), 2):
         ev = [dict(op='create', kind='exact', path=codes('/a'), **plain), dict(op='create', kind='matching', path=codes('/ab'), **plain)]
-        for b in fb[i:i + 8]:
+        for b in fb[i:i + 2]:
             ev.append(dict(op='recv', dg=list(b), src=SENDERS[0], via=1))
             ev.append(dict(op='recv', v=g.M('/a', [g.I(1)]), src=SENDERS[0], via=1))
         hs.append(dict(kind='dispatch', ev=ev, src='faults'))
